@@ -1108,11 +1108,35 @@ def _r11j(rep):
 
     tu = cast.load(CF)
     ex = celem.ElemExec(tu, where=CF)
-    # multiply_matrix_vector_dl3: v = a b ; norm_squared_d3
-    mv = ex.function("multiply_matrix_vector_dl3")
-    af, bf = sp.Function("a"), sp.Function("b")
-    ok_mv = all(sp.expand(mv.cell("v", r) - sum(af(r, c) * bf(c) for c in range(3))) == 0 for r in range(3)) and len({str(p) for p, _, _ in mv.cells.get("v", [])}) == 3
-    rep.instance("R11j", CF, "multiply_matrix_vector_dl3", "v[r] = sum_c a[r][c] b[c] for r = 0..2", ok_mv, "the matrix-vector product used to pick the shortest main diagonal is not a.b", line=tu.line(tu.functions["multiply_matrix_vector_dl3"]))
+    # the choice of the main diagonal, whatever helpers compute it: (1) the four lengths that are compared are
+    # |rec_lattice . d_i|^2 with d_i row i of the table of main diagonals (closed form of every value returned by the
+    # squared-norm helper inside get_main_diagonal), (2) the returned index is that of the first smallest length, for
+    # every ordering of four lengths (the lengths are touched only through comparisons: the function is evaluated on
+    # the 256 rank vectors in {0..3}^4)
+    af = sp.Function("a")
+    if "get_main_diagonal" not in tu.functions or "norm_squared_d3" not in tu.functions:
+        raise AnalysisError("R11j: get_main_diagonal / norm_squared_d3 vanished from c/tetrahedron_method.c")
+    seen_len = []
+    exl = celem.ElemExec(tu, where=CF, opaque_merge=True, call_hook=lambda nm_, v_, st_: seen_len.append(v_) if nm_ == "norm_squared_d3" and st_.fname == "get_main_diagonal" else None)
+    exl.function("get_main_diagonal")
+    rl, mdg = sp.Function("rec_lattice"), sp.Function("main_diagonals")
+    want_len = [sp.expand(sum(sum(rl(r, c) * mdg(d, c) for c in range(3)) ** 2 for r in range(3))) for d in range(4)]
+    got_len = [sp.expand(v_) for v_ in seen_len]
+    ok_len = got_len == want_len
+    bad_d = next((d for d in range(min(4, len(got_len))) if got_len[d] != want_len[d]), None)
+    rep.instance("R11j", CF, "get_main_diagonal", f"{len(got_len)} lengths compared: |rec_lattice . main_diagonals[d]|^2 for d = 0..3 in this order", ok_len,
+                 f"the length computed for main diagonal {bad_d} is {str(got_len[bad_d])[:160] if bad_d is not None else '<' + str(len(got_len)) + ' lengths>'}, not the squared length of sum_c rec_lattice[r][c] d[c] (the reciprocal basis vectors are the columns of rec_lattice, as in the Python implementation): for a non-orthogonal lattice another diagonal is taken for the shortest and the C and Python weights differ", line=tu.line(tu.functions["get_main_diagonal"]))
+    import itertools
+
+    wrong = []
+    for ranks in itertools.product(range(4), repeat=4):
+        it_ = iter(ranks)
+        exr = celem.ElemExec(tu, where=CF, call_hook=lambda nm_, v_, st_: sp.Integer(next(it_)) if nm_ == "norm_squared_d3" and st_.fname == "get_main_diagonal" else None)
+        r_ = exr.function("get_main_diagonal").ret
+        if r_ != ranks.index(min(ranks)):
+            wrong.append((ranks, r_))
+    rep.instance("R11j", CF, "get_main_diagonal", "returns the index of the first smallest of the four lengths (evaluated on all 256 rank vectors)", not wrong,
+                 f"for lengths ordered like {wrong[0][0] if wrong else ''} the function returns {wrong[0][1] if wrong else ''}; {len(wrong)} of 256 orderings differ from 'first minimum' (numpy.argmin in the Python implementation)", line=tu.line(tu.functions["get_main_diagonal"]))
     ns = ex.function("norm_squared_d3")
     rep.instance("R11j", CF, "norm_squared_d3", f"returns {ns.ret}", ns.ret is not None and sp.expand(ns.ret - sum(af(c) ** 2 for c in range(3))) == 0, "the squared length of a diagonal is not a0^2 + a1^2 + a2^2", line=tu.line(tu.functions["norm_squared_d3"]))
     # table getters
@@ -1204,7 +1228,8 @@ def selftest():
     n("case split written as a chained comparison", PY, "            elif v[0] < omega and omega < v[1]:", "            elif v[0] < omega < v[1]:")
     b("table copy swaps tetrahedron and vertex index", CF, "                relative_grid_address[i][j][k] =\n                    db_relative_grid_address[main_diag_index][i][j][k];", "                relative_grid_address[i][j][k] =\n                    db_relative_grid_address[main_diag_index][i][k][j];", "R11j", "thm_get_relative_grid_address")
     b("weight case divides instead of multiplying", CF, "                    sum += IJ(2, ci, omega, v) * gn(2, omega, v);", "                    sum += IJ(2, ci, omega, v) / gn(2, omega, v);", "R11j", "get_integration_weight")
-    b("matrix-vector product sign", CF, "        c[i] = a[i][0] * b[0] + a[i][1] * b[1] + a[i][2] * b[2];", "        c[i] = a[i][0] * b[0] - a[i][1] * b[1] + a[i][2] * b[2];", "R11j", "multiply_matrix_vector_dl3")
+    b("matrix-vector product sign", CF, "        c[i] = a[i][0] * b[0] + a[i][1] * b[1] + a[i][2] * b[2];", "        c[i] = a[i][0] * b[0] - a[i][1] * b[1] + a[i][2] * b[2];", "R11j", "get_main_diagonal")
+    b("last of equal main diagonals instead of the first", CF, "        if (min_length > length) {", "        if (min_length >= length) {", "R11j", "first smallest")
     b("total smearing DOS only over modes near the frequency point", DOS, "self._smearing_function.calc(self._frequencies - f)", "self._smearing_function.calc(self._frequencies[abs(self._frequencies - f) < 10 * self._sigma] - f)", "R11k", "calc")
     b("tetrahedron DOS without the multiplicity", "c/phonopy.c", "                                                'I') *\n                     weights[i];", "                                                'I');", "R11l", "")
     b("tetrahedron DOS reads the frequency of another band", "c/phonopy.c", "tetrahedra[l][q] = frequencies[ir_gps[l][q] * num_band + k];", "tetrahedra[l][q] = frequencies[ir_gps[l][q] * num_band + l];", "R11l", "dos[i,k,j,m]")
